@@ -10,7 +10,8 @@ import StorageModel.C04.Model
     * the back-reference set of a target is, by definition, the set of entities referencing it;
     * deleting an A entity removes it together with everything that transitively refers to it
       through `boss` (cascade) and nothing else;
-    * deleting a B entity is refused while an A entity refers to it through `owner` (restrict) or,
+    * deleting a B entity is refused while an A entity refers to it through `owner` (restrict), through a
+      mentor / guard fk declared by one of the child stores (restrict) or,
       in the restrict variant, through `dep`; in the cascade variant the `dep` referrers go, with
       their transitive `boss` referrers, and nothing else.
 
@@ -23,6 +24,15 @@ open StorageModel
 structure SSt where
   as : Map EntA := []
   bs : Map Unit := []
+
+/-- the rules the fks DECLARED BY a child store impose on a write through it (mentor index, guard
+    constraint: both nullable): a newly carried value must name an existing B entity -/
+def specCheckChild (σ : Schema) (c : Child) (isCreate : Bool) (oldM oldG : Bytes) (s : SSt) (e : EntA) : Option Err :=
+  let vm := evalVal (mentorOf σ c e)
+  let vg := evalVal (guardOf σ c e)
+  if σ.idx c ∧ ¬ (¬ isCreate ∧ oldM = vm) ∧ vm ≠ [] ∧ ¬ s.bs.contains vm then some .notFound
+  else if σ.fk c ∧ ¬ (¬ isCreate ∧ oldG = vg) ∧ vg ≠ [] ∧ ¬ s.bs.contains vg then some .notFound
+  else none
 
 abbrev SRes := Except Err SSt
 
@@ -51,6 +61,16 @@ def specWrite (σ : Schema) (isCreate : Bool) (old : Olds) (s : SSt) (id : Bytes
   | some err => .error err
   | none => .ok s'
 
+/-- a write through child store `c`: A's rules, then the rules of the fks `c` declares -/
+def specWriteC (σ : Schema) (c : Child) (isCreate : Bool) (old : Olds) (oldM oldG : Bytes) (s : SSt) (id : Bytes)
+    (e : EntA) : SRes :=
+  match specWrite σ isCreate old s id e with
+  | .ok s' =>
+    (match specCheckChild σ c isCreate oldM oldG s' e with
+     | some err => .error err
+     | none => .ok s')
+  | .error err => .error err
+
 /-- one round of "add everything whose boss is already in the set" -/
 def grow (as : Map EntA) (d : List Bytes) : List Bytes :=
   d ++ as.keys.filter (fun k => decide (k ∉ d) && (match as.lookup k with
@@ -78,16 +98,15 @@ def specDeleteB (σ : Schema) (id : Bytes) (s : SSt) : CB → SRes
     if σ.depCascade then .ok { s with as := removeAll s.as (closure s.as refs) }
     else if refs ≠ [] then .error .refExists else .ok s
 
-def hasChild (as : Map EntA) (id : Bytes) : Bool :=
-  match as.lookup id with
-  | some e => e.ext.isSome
-  | none => false
+/-- restrict through the child-declared fks: some entity refers to `id` through a declared mentor / guard -/
+def specChildRestrict (σ : Schema) (as : Map EntA) (id : Bytes) (c : Child) : Bool :=
+  decide (specReferrers as (mentorOf σ c) id ≠ []) || decide (specReferrers as (guardOf σ c) id ≠ [])
 
 def specApply (σ : Schema) (s : SSt) : Op → SRes
   | .createB id =>
     if id = [] ∨ s.bs.contains id then .error .other else .ok { s with bs := s.bs.insert id () }
   | .createA id e =>
-    if id = [] ∨ s.as.contains id then .error .other else specWrite σ true {} s id e
+    if id = [] ∨ s.as.contains id then .error .other else specWrite σ true {} s id e.plain
   | .updateA id e mo mb md =>
     if id = [] then .error .other
     else match s.as.lookup id with
@@ -95,31 +114,40 @@ def specApply (σ : Schema) (s : SSt) : Op → SRes
       | some cur =>
         specWrite σ false { owner := evalVal cur.owner, boss := evalVal cur.boss, dep := evalVal cur.dep } s id
           { owner := if mo then e.owner else cur.owner, boss := if mb then e.boss else cur.boss,
-            dep := if md then e.dep else cur.dep, ext := cur.ext }
+            dep := if md then e.dep else cur.dep, ext1 := cur.ext1, ext2 := cur.ext2 }
   | .deleteA id =>
     if s.as.contains id then .ok { s with as := removeAll s.as (closure s.as [id]) } else .error .notFound
-  | .createC id e tag =>
-    -- the child store refuses only an id for which child data exists already
-    if id = [] ∨ hasChild s.as id then .error .other
-    else specWrite σ true {} s id { owner := e.owner, boss := e.boss, dep := e.dep, ext := some tag }
-  | .updateC id e tag mo mb md mt =>
+  | .createC c id e x =>
+    -- the child store refuses only an id for which it holds data already
+    if id = [] then .error .other
+    else match s.as.lookup id with
+      | none =>
+        specWriteC σ c true {} [] [] s id (({ owner := e.owner, boss := e.boss, dep := e.dep } : EntA).setExt c (some x))
+      | some cur =>
+        if (cur.extOf c).isSome then .error .other
+        else specWriteC σ c true {} [] [] s id
+          (({ owner := e.owner, boss := e.boss, dep := e.dep, ext1 := cur.ext1, ext2 := cur.ext2 } : EntA).setExt c (some x))
+  | .updateC c id e x mo mb md mt mm mg =>
     if id = [] then .error .other
     else match s.as.lookup id with
       | none => .error .notFound
       | some cur =>
-        match cur.ext with
+        match cur.extOf c with
         | none => .error .notFound                              -- not an entity of the child store
-        | some curTag =>
-          specWrite σ false { owner := evalVal cur.owner, boss := evalVal cur.boss, dep := evalVal cur.dep } s id
-            { owner := if mo then e.owner else cur.owner, boss := if mb then e.boss else cur.boss,
-              dep := if md then e.dep else cur.dep, ext := some (if mt then tag else curTag) }
+        | some cx =>
+          specWriteC σ c false { owner := evalVal cur.owner, boss := evalVal cur.boss, dep := evalVal cur.dep }
+            (evalVal cx.m) (evalVal cx.g) s id
+            (({ owner := if mo then e.owner else cur.owner, boss := if mb then e.boss else cur.boss,
+                dep := if md then e.dep else cur.dep, ext1 := cur.ext1, ext2 := cur.ext2 } : EntA).setExt c
+              (some { tag := if mt then x.tag else cx.tag, m := if mm then x.m else cx.m, g := if mg then x.g else cx.g }))
   | .deleteC id =>
     -- a delete through the child store is a delete of the entity
     if s.as.contains id then .ok { s with as := removeAll s.as (closure s.as [id]) } else .error .notFound
   | .deleteB id =>
     if s.bs.contains id then do
       let s1 ← (orderB σ).foldlM (specDeleteB σ id) s
-      pure { s1 with bs := s1.bs.erase id }
+      if specChildRestrict σ s1.as id .c1 || specChildRestrict σ s1.as id .c2 then .error .refExists
+      else pure { s1 with bs := s1.bs.erase id }
     else .error .notFound
 
 def specRunTxFrom (σ : Schema) (s0 : SSt) : Nat → SSt → List Op → SSt × Option (Nat × Err)
@@ -136,5 +164,11 @@ def derive (s : SSt) : St :=
   { as := s.as, bs := s.bs,
     things := s.bs.keys.map (fun b => (b, specReferrers s.as (·.owner) b)),
     minions := s.as.keys.map (fun a => (a, specReferrers s.as (·.boss) a)) }
+
+/-- … including the sets of the child-declared fk indexes (schema dependent) -/
+def deriveσ (σ : Schema) (s : SSt) : St :=
+  { derive s with
+    mentees1 := s.bs.keys.map (fun b => (b, specReferrers s.as (mentorOf σ .c1) b)),
+    mentees2 := s.bs.keys.map (fun b => (b, specReferrers s.as (mentorOf σ .c2) b)) }
 
 end StorageModel.C04
